@@ -48,6 +48,8 @@ def main():
     src = f"/tmp/seedout-{pid}/{mn}"
     wt = f"/tmp/seedwt-{pid}-{mn}"
     dst = os.path.join(VERIF, "seeded", f"{pid}-{mn}")
+    if not os.path.exists(f"{src}/patch.diff") and os.path.exists(f"{dst}/patch.diff"):
+        src = dst      # re-evaluation of a change that is already stored
     os.makedirs(dst, exist_ok=True)
     meta = {"property": pid, "mutation": mn, "repo_head": sh("git -C /repo rev-parse --short HEAD")[1].strip()}
     sh(f"git -C /repo worktree remove --force {wt}")
@@ -113,7 +115,7 @@ def main():
             if rc not in (0, 1):
                 meta["checks"][c]["tail"] = out[-800:]
         for f in ("patch.diff", "demo.py", "demo_test.py", "notes.md"):
-            if os.path.exists(f"{src}/{f}"):
+            if os.path.exists(f"{src}/{f}") and src != dst:
                 shutil.copy(f"{src}/{f}", f"{dst}/{f}")
         json.dump(meta, open(f"{dst}/meta.json", "w"), indent=1)
         print(json.dumps({k: meta[k] for k in ("property", "mutation", "demo_confirms", "checks") if k in meta}, indent=1))
